@@ -369,6 +369,26 @@ def fileOk (o : Opts) (hdr0 : List Str) (f : List GLine) : Bool :=
      | _ => false)
    else f.all (fun l => !l.isHeader))
 
+/-- the same shape without the demand on the last written field of a row (rows ending in empty
+    fields): what the driver demands of the implementation; the theorems assume `fileOk` -/
+def rowOkWide (o : Opts) (fs : List Field) : Bool :=
+  fs.all Field.ok &&
+  (match fs.head? with
+   | some f => !f.clean.isEmpty && (f.expect o).head? != some '#'
+   | none => false)
+
+def GLine.okWide (o : Opts) : GLine → Bool
+  | .row fs => rowOkWide o fs
+  | l => l.ok o
+
+def fileOkWide (o : Opts) (hdr0 : List Str) (f : List GLine) : Bool :=
+  f.all (GLine.okWide o) &&
+  (if hdr0.isEmpty then
+    (match f.dropWhile isBlankLine with
+     | .header _ _ :: rest => rest.all (fun l => !l.isHeader)
+     | _ => false)
+   else f.all (fun l => !l.isHeader))
+
 def fileHeader (hdr0 : List Str) (f : List GLine) : List Str :=
   if hdr0.isEmpty then
     (match f.find? GLine.isHeader with
@@ -758,7 +778,7 @@ def renderAgrees (f : FileReq) : Bool :=
 def specOf (o : Opts) (hdr0 : List Str) (conv : Str → Str → Val) (f : FileReq) :
     Option (Except Err (Mapping Val)) :=
   match f.gram with
-  | some g => if fileOk o hdr0 g then some (relOf o hdr0 conv g) else none
+  | some g => if fileOkWide o hdr0 g then some (relOf o hdr0 conv g) else none
   | none => none
 
 def handleAdd (req : Json) : R Json := do
@@ -816,11 +836,12 @@ def handleParse (req : Json) : R Json := do
     | some e => firstClause [("parse: rendered lines are the grammar's lines", renderAgrees f),
         ("parse: dict is the relation of the rows", parseHolds e act)]
     | none => none
-  let mh : Bool := match f.gram, spec with
-    | some g, some _ => holds (α := Rat) (.parse o hdr0 proc g) (model (.parse o hdr0 proc g))
-    | _, _ => true
+  let mh : Bool := match f.gram with
+    | some g => !fileOk o hdr0 g || holds (α := Rat) (.parse o hdr0 proc g) (model (.parse o hdr0 proc g))
+    | none => true
   pure (answer v (sameMapping mres act) (resultToJson (fun m => textMappingToJson (textMapping m)) mres)
-    [("guarded", .bool spec.isSome), ("model_holds", .bool mh)])
+    [("guarded", .bool spec.isSome), ("model_holds", .bool mh),
+     ("in_theorem_guard", .bool (match f.gram with | some g => fileOk o hdr0 g | none => false))])
 
 /-- what a written-and-reloaded file can show: metadata whose entries are all empty reads back absent -/
 def normFile (t : Table Rat) : Table Rat :=
